@@ -193,7 +193,7 @@ func typeName(fset *token.FileSet, e ast.Expr) string {
 }
 
 func ssaInstructionTypes(repo string) ([]string, error) {
-	cfg := &packages.Config{Mode: packages.NeedTypes | packages.NeedName | packages.NeedImports | packages.NeedDeps, Dir: repo,
+	cfg := &packages.Config{Mode: packages.NeedTypes | packages.NeedName, Dir: repo,
 		Env: append(os.Environ(), "GOFLAGS=-mod=mod", "GOPROXY=off", "GOSUMDB=off", "GOTOOLCHAIN=local")}
 	pkgs, err := packages.Load(cfg, "golang.org/x/tools/go/ssa")
 	if err != nil {
